@@ -110,13 +110,6 @@ func init() {
 				bp = append(bp, fmt.Sprint(b))
 			}
 			cases = append(cases, Case{"cmd": "scalar", "field": "bpm", "vals": bp})
-			// the same numbers spelled with leading zeros (decimal numerals: 010 is ten, 08 is eight)
-			cases = append(cases,
-				Case{"cmd": "scalar", "field": "degree", "vals": []string{"01", "07", "08", "09", "010", "b010", "#011", "012", "0013", "bb07"}},
-				Case{"cmd": "scalar", "field": "base", "vals": []string{"03", "08", "09", "010", "b010", "0012"}},
-				Case{"cmd": "scalar", "field": "value", "vals": []string{"01", "08", "09", "010", "1/08", "1/010", "010/08", "0100/0100", "007/0960", "00000000000000000000012"}},
-				Case{"cmd": "scalar", "field": "meter", "vals": []string{"03/04", "08/08", "09/08", "010/08", "012/016", "6/008", "010/0128"}},
-				Case{"cmd": "scalar", "field": "bpm", "raw": true, "vals": []string{"0120", "090", "08", "0100", "000060", "004"}})
 			for i := 0; i < nc; i++ {
 				o := GenOpt{MaxLen: 8, RestP: 0.25, KeyP: 0.2, SettingP: 0.2, TextP: 0.3, Fractions: true, MultiVals: true, MaxDeg: 15, AllMarks: true, BassP: 0.4,
 					Syms: allSymbols(), Texts: sampleTexts, FirstChord: true}
@@ -243,12 +236,13 @@ func init() {
 					sb.WriteString("C[1] ")
 				}
 				r1 := c.crdEnv([]string{"text", "conv", "syllable"}, []byte(sb.String()), nil, 60*time.Second)
-				rec := Rec{"kind": "bigpipe", "n": n, "convOk": r1.Exit == 0 && len(r1.Stdout) > 0, "yamlBytes": len(r1.Stdout), "writeOk": false, "ons": 0, "eot": 0}
+				rec := Rec{"kind": "bigpipe", "n": n, "convOk": r1.Exit == 0 && len(r1.Stdout) > 0, "yamlBytes": len(r1.Stdout), "writeOk": false, "ons": 0, "eot": 0, "division": 0}
 				if rec["convOk"] == true {
 					r2 := c.crdEnv([]string{"write"}, r1.Stdout, nil, 120*time.Second)
 					f := smf.Parse(r2.Stdout)
 					rec["writeOk"] = r2.Exit == 0 && f.Err == "" && len(r2.Stdout) > 0
 					rec["ons"] = len(noteOns(f))
+					rec["division"] = f.Division
 					if len(f.TrackLen) > 0 {
 						rec["eot"] = f.TrackLen[0]
 					}
@@ -257,7 +251,14 @@ func init() {
 			case "texttc":
 				t, mkey := cs(k, "text"), cs(k, "mkey")
 				r1 := c.crd([]string{"text", "conv", "syllable"}, []byte("C[1] G[1]{"+mkey+"="+t+"}"))
-				rec := Rec{"kind": "texttc", "sub": fmt.Sprintf("%s %q", mkey, t), "text": bytesOf([]byte(t)), "mkey": mkey, "convOk": r1.Exit == 0 && len(r1.Stdout) > 0, "writeOk": false, "payloads": [][]int{}}
+				rec := Rec{"kind": "texttc", "sub": fmt.Sprintf("%s %q", mkey, t), "text": bytesOf([]byte(t)), "mkey": mkey, "convOk": r1.Exit == 0 && len(r1.Stdout) > 0, "writeOk": false, "payloads": [][]int{},
+					"yamlText": []int{}}
+				var printed []struct {
+					Meta map[string]string `yaml:"meta"`
+				}
+				if yaml.Unmarshal(r1.Stdout, &printed) == nil && len(printed) > 0 {
+					rec["yamlText"] = bytesOf([]byte(printed[len(printed)-1].Meta[mkey]))
+				}
 				if rec["convOk"] == true {
 					r2 := c.crd([]string{"write"}, r1.Stdout)
 					f := smf.Parse(r2.Stdout)
@@ -311,12 +312,13 @@ func init() {
 						y = append(append(append([]byte{}, y[:i+2]...), []byte("# "+long+"\n")...), y[i+2:]...)
 					}
 				}
-				rec := Rec{"kind": "bigline", "sub": fmt.Sprint(how, n), "how": how, "n": n, "convOk": r1.Exit == 0 && len(r1.Stdout) > 0, "writeOk": false, "ons": 0, "eot": 0, "texts": []int{}}
+				rec := Rec{"kind": "bigline", "sub": fmt.Sprint(how, n), "how": how, "n": n, "convOk": r1.Exit == 0 && len(r1.Stdout) > 0, "writeOk": false, "ons": 0, "eot": 0, "texts": []int{}, "division": 0}
 				if rec["convOk"] == true {
 					r2 := c.crdEnv([]string{"write"}, y, nil, 60*time.Second)
 					f := smf.Parse(r2.Stdout)
 					rec["writeOk"] = r2.Exit == 0 && f.Err == "" && len(r2.Stdout) > 0
 					rec["ons"] = len(noteOns(f))
+					rec["division"] = f.Division
 					if len(f.TrackLen) > 0 {
 						rec["eot"] = f.TrackLen[0]
 					}
